@@ -817,7 +817,7 @@ def plan(prop, tier):
     if tier == "thorough":
         return {"runs": 40000, "budget_s": 900, "timeout_s": 180,
                 "selfcheck_runs": 12}
-    return {"runs": 1500, "budget_s": 65, "timeout_s": 120,
+    return {"runs": 3000, "budget_s": 65, "timeout_s": 120,
             "selfcheck_runs": 6}
 
 
